@@ -24,6 +24,21 @@ import (
 // so that corpus sources importing the usual standard packages get past the type
 // checker and reach the emitter and the disassembler. Nothing built is ever run.
 func Packages() native.Packages {
+	pkgs := basePackages()
+	// "wide" offers several hundred distinct native functions and variables, so
+	// that one function can refer to more of them than fit in a signed byte.
+	decl := native.Declarations{}
+	for i := 0; i < 300; i++ {
+		i := i
+		decl[fmt.Sprintf("W%d", i)] = func() int { return i }
+		v := i
+		decl[fmt.Sprintf("V%d", i)] = &v
+	}
+	pkgs["wide"] = native.Package{Name: "wide", Declarations: decl}
+	return pkgs
+}
+
+func basePackages() native.Packages {
 	return native.Packages{
 		"fmt": native.Package{Name: "fmt", Declarations: native.Declarations{
 			"Print": fmt.Print, "Printf": fmt.Printf, "Println": fmt.Println,
